@@ -120,6 +120,10 @@ fn hinfo<A: Allocator>(a: &A, h: &mut dyn Handle) -> HInfo {
     }
 }
 
+pub fn alloc_any_pub<A: VArena>(a: &'static A, id: u64, req: Req, ty: u8, owned: bool) -> Result<Box<dyn Handle>, Error> {
+    alloc_any(a, id, req, ty, owned)
+}
+
 fn alloc_any<A: VArena>(a: &'static A, id: u64, req: Req, ty: u8, owned: bool) -> Result<Box<dyn Handle>, Error> {
     match req {
         Req::Bytes(n) => {
